@@ -145,8 +145,12 @@ func (f *Func) redefineInputs(opts ...Arg) (reflect.Type, error) {
 	for _, v := range g.Vertices() {
 		switch v := v.(type) {
 		case *funcVertex:
-			// Copy the func since we're going to modify a field in it.
+			// Copy the func since we're going to modify a field in it. The
+			// memoized result of a FuncOnce function may be written by a
+			// concurrent call, so read it under its lock.
+			v.Func.onceLock.Lock()
 			fCopy := *v.Func
+			v.Func.onceLock.Unlock()
 			v.Func = &fCopy
 
 			// Modify the function to be a zero producing function.
